@@ -1034,9 +1034,24 @@ impl World for QueuesWorld {
     }
 
     fn execute(&self, scenario: &Json, keep_log: bool) -> Outcome {
-        execute_batch::<Seq>(scenario, keep_log, MAX_OPS, run_seq, |seq, msg| {
+        let mut out = execute_batch::<Seq>(scenario, keep_log, MAX_OPS, run_seq, |seq, msg| {
             Violation::new("C02", "C02.queue.panic", &seq.kind, format!("the queue panicked: {msg}; kind={} keys={} ops={}", seq.kind, seq.keys, seq.ops.join(" ")))
-        })
+        });
+        // The downlink runtime relieves back-pressure on its map commands with the very same queue (`MapBackpressure`,
+        // downlink/backpressure.rs): what that queue loses, reorders or fabricates is the subject of C07 as well.
+        let mirrored: Vec<Violation> = out
+            .violations
+            .iter()
+            .filter(|v| v.property == "C02" && v.detail.contains("kind=mapq"))
+            .map(|v| Violation {
+                property: "C07".to_string(),
+                rule: v.rule.replacen("C02.", "C07.", 1),
+                sig: v.sig.replacen("C02.", "C07.", 1),
+                detail: v.detail.clone(),
+            })
+            .collect();
+        out.violations.extend(mirrored);
+        out
     }
 
     fn shrink(&self, scenario: &Json) -> Vec<Json> {
